@@ -21,7 +21,7 @@ func init() {
 		c08AtomicClaim(c)
 		c08FlagCover(c, "C08.5b")
 		c08ListenerBeforeReader(c)
-		c01Handoff(c) // C08.7 = C01.7
+		c01Handoff(c)           // C08.7 = C01.7
 		takeAndSend(c, "C08.9") // no message lost across the switch: a flush in progress hands its batch to the transport that is current at the hand-off
 	})
 }
